@@ -80,6 +80,13 @@ def run : Store → Task → Task → List Bool → Store × Task × Task
   | s, a, b, true :: rest => run (stepTask s a).1 (stepTask s a).2 b rest
   | s, a, b, false :: rest => run (stepTask s b).1 a (stepTask s b).2 rest
 
+/-- three concurrent requests: schedule entries 0, 1, 2 name the task that moves -/
+def run3 : Store → Task → Task → Task → List Nat → Store × Task × Task × Task
+  | s, a, b, c, [] => (s, a, b, c)
+  | s, a, b, c, 0 :: rest => run3 (stepTask s a).1 (stepTask s a).2 b c rest
+  | s, a, b, c, 1 :: rest => run3 (stepTask s b).1 a (stepTask s b).2 c rest
+  | s, a, b, c, _ :: rest => run3 (stepTask s c).1 a b (stepTask s c).2 rest
+
 def mk (u : User) (k : Kind) : Task := { user := u, kind := k, loaded := none, status := none }
 
 def seqAB : List Bool := [true, true, false, false]
